@@ -25,6 +25,8 @@ MsgsCover == {
     Remote("10.0.2.0/26", B2, "vxlan", "n2", Ip2, FALSE),
     Remote("10.0.2.0/26", B2, "vxlan", "n2", Ip2, TRUE),
     Remote("10.0.2.0/26", B2, "none", "n2", Ip2, FALSE),
+    \* the same block after it changed owner to the local node (RouteUpdate -> RouteUpdate type flip, no remove)
+    M("10.0.2.0/26", R(B2, FALSE, TRUE, FALSE, "vxlan", "n1", "172.0.0.2", TRUE, FALSE, FALSE)),
     M("10.0.1.0/26", R(LB, FALSE, TRUE, FALSE, "vxlan", "n1", "172.0.0.2", TRUE, FALSE, FALSE)),
     M("10.0.1.7/32", R(W1, FALSE, TRUE, FALSE, "vxlan", "n1", "172.0.0.2", TRUE, TRUE, FALSE)),
     M("10.0.1.7/32", R(W1, FALSE, TRUE, FALSE, "vxlan", "n1", "172.0.0.2", TRUE, FALSE, FALSE)) }
@@ -34,6 +36,14 @@ MsgsBig == MsgsCover \cup {
     Remote("10.0.2.0/26", B2, "ipip", "n2", Ip2, TRUE),
     Remote("10.0.2.0/26", B2, "none", "n2", Ip2b, FALSE),
     Remote("10.0.2.0/26", B2, "", "n2", Ip2, FALSE),
+    \* owner flips local <-> remote for the other pool kinds and for the usually-local block
+    M("10.0.2.0/26", R(B2, FALSE, TRUE, FALSE, "ipip", "n1", "172.0.0.2", TRUE, FALSE, FALSE)),
+    M("10.0.2.0/26", R(B2, FALSE, TRUE, FALSE, "none", "n1", "172.0.0.2", TRUE, FALSE, FALSE)),
+    Remote("10.0.1.0/26", LB, "vxlan", "n2", Ip2, FALSE),
+    Remote("10.0.1.0/26", LB, "vxlan", "n3", Ip3, FALSE),
+    Remote("10.0.1.0/26", LB, "ipip", "n2", Ip2, FALSE),
+    Remote("10.0.1.0/26", LB, "none", "n2", Ip2, FALSE),
+    Remote("10.0.3.0/26", B3, "vxlan", "n2", Ip2, TRUE),
     Remote("10.0.3.0/26", B3, "vxlan", "n3", Ip3, FALSE),
     Remote("10.0.3.0/26", B3, "ipip", "n3", Ip3, FALSE),
     Remote("10.0.3.0/26", B3, "none", "n3", Ip3, FALSE),
